@@ -340,6 +340,8 @@ def gen_cases(rng, tier):
                 if (cls2, tuple(item2)) == (cls, tuple(item)) and \
                         (b['mask'] is False or (isinstance(b['mask'], list) and not any(b['mask']))):
                     b = dict(b, raw=rng.choice(['list', 'nd', 'num'] if not (sb or item2) else ['list', 'nd']), unit=None)
+                elif (cls2, tuple(item2)) == (cls, tuple(item)) == ('Scalar', ()) and sb and rng.random() < 0.5:
+                    b = dict(b, raw='ma', unit=None)
                 sib = {('Vector', (2,)): 'Pair', ('Pair', (2,)): 'Vector', ('Vector', (3,)): 'Vector3'}.get((cls2, tuple(item2)))
                 if sib and 'raw' not in b and rng.random() < 0.6:
                     b = dict(b, cls=sib)
@@ -498,7 +500,32 @@ def ref_cmp(op, a, b, oa, ob):
     return ('arr', list(s), ['T' if v else 'F' for v in out])
 
 
+def constants_intact(Pm):
+    """the shared Boolean constants are what the library defines (seeded change C14-L: a three-valued comparison of
+    shapeless operands masked Boolean.TRUE / Boolean.FALSE themselves, which every later tvl_and / tvl_or with a
+    Python bool then used)"""
+    B = Pm.Boolean
+    bad = []
+    for name, v, m in (('TRUE', True, False), ('FALSE', False, False), ('MASKED', None, True)):
+        c_ = getattr(B, name)
+        if bool(np.all(c_._mask_)) != m or np.shape(c_._mask_) != () or (v is not None and bool(c_._values_) != v) or c_.shape != ():
+            bad.append(name)
+    return bad
+
+
 def run_case(c, Pm):
+    res = run_case_(c, Pm)
+    bad = constants_intact(Pm)
+    if bad:
+        res['impl'] = ('other', 'Boolean constants changed by this operation: %s' % bad)
+        for name, v, m in (('TRUE', True, False), ('FALSE', False, False), ('MASKED', False, True)):   # put them back
+            c_ = getattr(Pm.Boolean, name)
+            c_._mask_, c_._values_ = m, (v if name != 'MASKED' else c_._values_)
+            c_._cache_.clear()
+    return res
+
+
+def run_case_(c, Pm):
     """returns dict(impl=obs|('exc',name,site), ref=obs, coq=term or None, sig=...)"""
     kind = c['kind']
     res = {'coq': None}
@@ -558,7 +585,12 @@ def run_case(c, Pm):
                 raw = c['b'].get('raw')
                 if raw:
                     v = np.asarray(b._values_)
-                    b_call = v.tolist() if raw == 'list' else (v.copy() if raw == 'nd' else v.item())
+                    if raw == 'ma':
+                        # a NumPy MaskedArray as the right operand: its mask counts like an object's (seeded C14-M)
+                        mm_ = np.broadcast_to(np.asarray(b._mask_), b.shape)
+                        b_call = np.ma.MaskedArray(v.copy(), mask=mm_.copy())
+                    else:
+                        b_call = v.tolist() if raw == 'list' else (v.copy() if raw == 'nd' else v.item())
                 plain = ref_cmp(op, c['a'], c['b'], a, b)
                 if plain is None:
                     res['ref'] = None
